@@ -155,41 +155,67 @@ Merge(old, upd) == [c \in Cells |-> IF upd[c] # None THEN upd[c] ELSE old[c]]
 \* Enabling condition for the model bound (checked by the caller, never truncated here):
 SuggestWithinBound(st, s, env) == MaxTrialId(st, s) + Len(env.ps) <= MaxId
 
-SuggestFresh(st, s, w, n, env) ==
-  LET ops == st.ops[s][w]
-  IN
+\* What C02 leaves to the implementation is a CHOICE, a record
+\*   [own  |-> which of the worker's own ACTIVE trials are returned when it holds more than n,
+\*    pool |-> which queued REQUESTED trials are taken when the pool is larger than what is still needed,
+\*    perm |-> pairing of the algorithm's suggestions with the new ids: new id base+j gets ps[perm[j]],
+\*    act  |-> which of the new ids (as offsets 1..k) are handed out ACTIVE; the others are queued REQUESTED].
+\* A call whose env carries no field "ch" is executed with DefaultChoice, the choice the code makes today (lowest own ids,
+\* newest pool trials, suggestions consumed from the end of the delivered list, surplus queued in list order).
+\* Variants(st, c) below is the set of all calls that differ from c only in the choice: judges of observed behaviour
+\* accept an outcome explained by ANY variant.
+SuggestParts(st, s, w, n, env) ==
   LET own  == {t \in IdsOf(st, s) : st.trial[s][t].state = "ACTIVE" /\ st.trial[s][t].client = w}
       pool == {t \in IdsOf(st, s) : st.trial[s][t].state = "REQUESTED"}
+      needPool == IF Cardinality(own) >= n THEN 0 ELSE n - Cardinality(own)
+      takeN == IF needPool < Cardinality(pool) THEN needPool ELSE Cardinality(pool)
+      need == IF Cardinality(own) >= n THEN 0 ELSE n - Cardinality(own) - takeN
+      k == IF need = 0 \/ env.raise THEN 0 ELSE Len(env.ps)
+      useN == IF k < need THEN k ELSE need
+  IN [own |-> own, pool |-> pool, takeN |-> takeN, need |-> need, k |-> k, useN |-> useN]
+Lowest(S, m) == {t \in S : Cardinality({u \in S : u < t}) < m}
+Highest(S, m) == {t \in S : Cardinality({u \in S : u > t}) < m}
+DefaultChoice(st, s, w, n, env) ==
+  LET q == SuggestParts(st, s, w, n, env) IN
+  [own  |-> IF Cardinality(q.own) >= n THEN Lowest(q.own, n) ELSE q.own,
+   pool |-> Highest(q.pool, q.takeN),
+   perm |-> [j \in 1..q.k |-> IF j <= q.useN THEN q.k - j + 1 ELSE j - q.useN],
+   act  |-> 1..q.useN]
+PermsOf(k) == {f \in [1..k -> 1..k] : \A i, j \in 1..k : i # j => f[i] # f[j]}
+Choices(st, s, w, n, env) ==
+  LET q == SuggestParts(st, s, w, n, env) IN
+  [own  : IF Cardinality(q.own) >= n THEN {S \in SUBSET q.own : Cardinality(S) = n} ELSE {q.own},
+   pool : {S \in SUBSET q.pool : Cardinality(S) = q.takeN},
+   perm : PermsOf(q.k),
+   act  : {S \in SUBSET (1..q.k) : Cardinality(S) = q.useN}]
+
+SuggestFresh(st, s, w, n, env, ch) ==
+  LET ops == st.ops[s][w]
+      q == SuggestParts(st, s, w, n, env)
+      own == q.own
       finish(st2, ids, err) ==
         LET op == [done |-> TRUE, err |-> err, trials |-> ids] IN
         [st |-> [st2 EXCEPT !.ops[s][w] = Append(@, op)],
          resp |-> [err |-> None, val |-> [num |-> Len(ops) + 1, op |-> op]]]
-  IN IF Cardinality(own) >= n THEN finish(st, Take(SeqOf(own), n), FALSE)
+  IN IF Cardinality(own) >= n THEN finish(st, SeqOf(ch.own), FALSE)
      ELSE
-     LET needPool == n - Cardinality(own)
-         poolSeq == SeqOf(pool)           \* stored order = id order; the code pops from the end
-         takeN == IF needPool < Len(poolSeq) THEN needPool ELSE Len(poolSeq)
-         taken == {poolSeq[i] : i \in (Len(poolSeq) - takeN + 1)..Len(poolSeq)}
+     LET taken == ch.pool
          st1 == [st EXCEPT !.trial[s] = [t \in Ids |-> IF t \in taken
                                             THEN [st.trial[s][t] EXCEPT !.state = "ACTIVE", !.client = w]
                                             ELSE st.trial[s][t]]]
          have == own \cup taken
-         need == n - Cardinality(have)
-     IN IF need = 0 THEN finish(st1, SeqOf(have), FALSE)
+     IN IF q.need = 0 THEN finish(st1, SeqOf(have), FALSE)
         ELSE IF env.raise THEN finish(st1, <<>>, TRUE)      \* DOC: "Error-ed" operation, done
         ELSE
         LET st1m == [st1 EXCEPT !.study[s].meta = Merge(@, env.md)]
             base == MaxTrialId(st1m, s)
-            k == Len(env.ps)
-            useN == IF k < need THEN k ELSE need      \* DOC: a short delivery is handed out as it is
-            \* new_trials.pop(): suggestions are consumed from the END of the delivered list
-            actP(j) == env.ps[k - j + 1]              \* j-th new ACTIVE trial (j = 1..useN)
-            reqP(j) == env.ps[j]                      \* j-th surplus trial   (j = 1..k-useN), list order
+            k == q.k                                  \* DOC: a short delivery (k < need) is handed out as it is
             st2 == [st1m EXCEPT !.trial[s] = [t \in Ids |->
-                       IF t \in (base + 1)..(base + useN) THEN NewTrial("ACTIVE", w, actP(t - base), None)
-                       ELSE IF t \in (base + useN + 1)..(base + k) THEN NewTrial("REQUESTED", None, reqP(t - base - useN), None)
+                       IF t \in (base + 1)..(base + k)
+                         THEN IF (t - base) \in ch.act THEN NewTrial("ACTIVE", w, env.ps[ch.perm[t - base]], None)
+                              ELSE NewTrial("REQUESTED", None, env.ps[ch.perm[t - base]], None)
                        ELSE st1m.trial[s][t]]]
-        IN finish(st2, SeqOf(have \cup ((base + 1)..(base + useN))), FALSE)
+        IN finish(st2, SeqOf(have \cup {base + j : j \in ch.act}), FALSE)
 
 SuggestTrials(st, s, w, n, env) ==
   IF StudyGuard(st, s) # None THEN Err(st, StudyGuard(st, s))
@@ -197,7 +223,7 @@ SuggestTrials(st, s, w, n, env) ==
   \* An operation of this client that is still unfinished was abandoned (SuggestTrials runs to completion under the
   \* operation lock; only a dead server leaves one behind): it is closed with an error and a new operation starts.
   LET st0 == [st EXCEPT !.ops[s][w] = [i \in DOMAIN @ |-> IF @[i].done THEN @[i] ELSE [@[i] EXCEPT !.done = TRUE, !.err = TRUE]]]
-  IN SuggestFresh(st0, s, w, n, env)
+  IN SuggestFresh(st0, s, w, n, env, IF "ch" \in DOMAIN env THEN env.ch ELSE DefaultChoice(st0, s, w, n, env))
 
 GetOperation(st, s, w, i) ==
   IF StudyPresent(st, s) /\ i \in DOMAIN st.ops[s][w] THEN Ok(st, st.ops[s][w][i]) ELSE Err(st, "NotFound")
@@ -270,6 +296,17 @@ Apply(st, c) ==
     [] c.rpc = "CheckEarlyStopping" -> CheckEarlyStopping(st, c.s, c.t, c.env)
     [] c.rpc = "UpdateMetadata"     -> UpdateMetadata(st, c.s, c.d)
     [] c.rpc = "ListOptimalTrials"  -> ListOptimalTrials(st, c.s)
+
+\* every call that differs from c only in what C02 leaves open (see Choices)
+Variants(st, c) ==
+  IF c.rpc = "SuggestTrials" /\ StudyGuard(st, c.s) = None
+  THEN LET base == [x \in DOMAIN c.env \ {"ch"} |-> c.env[x]]
+       IN {[c EXCEPT !.env = [x \in DOMAIN base \cup {"ch"} |-> IF x = "ch" THEN ch ELSE base[x]]] :
+             ch \in Choices(st, c.s, c.w, c.n, base)}
+  ELSE {c}
+\* an observed (response, post-state) is explained by the model when some variant of the call produces it; the default
+\* choice is tried first (TLC evaluates the disjunction left to right)
+Matches(c, model, obs) == model.err = obs.err /\ (model.err # None \/ model.val = obs.val)
 
 \* -------------------------------------------- property vocabulary (shared)
 Legal == {<<"REQUESTED","ACTIVE">>, <<"ACTIVE","STOPPING">>, <<"ACTIVE","SUCCEEDED">>, <<"ACTIVE","INFEASIBLE">>,
